@@ -15,6 +15,7 @@ from boltons.iterutils import is_iterable
 from boltons.typeutils import make_sentinel
 
 from .core import GlomError, glom, T, MODE, bbrepr, bbformat, format_invocation, Path, chain_child, Val, arg_val
+from .core import CHILD_ERRORS
 
 
 _MISSING = make_sentinel('_MISSING')
@@ -695,7 +696,9 @@ def _handle_dict(target, spec, scope):
         key.key: key.default for key in spec_keys
         if type(key) is Optional and key.default is not _MISSING}
     result = {}
+    child_errors = scope.maps[0][CHILD_ERRORS]
     for key, val in target.items():
+        n_errors = len(child_errors)
         for maybe_spec_key in spec_keys:
             # handle Required as a special case here rather than letting it be a stand-alone spec
             if type(maybe_spec_key) is Required:
@@ -709,6 +712,8 @@ def _handle_dict(target, spec, scope):
             else:
                 result[key] = scope[glom](val, spec[maybe_spec_key], chain_child(scope))
                 required.discard(maybe_spec_key)
+                # the key patterns this item did not fit are forgiven: it matched
+                del child_errors[n_errors:]
                 break
         else:
             raise MatchError("key {0!r} didn't match any of {1!r}", key, spec_keys)
@@ -729,10 +734,14 @@ def _glom_match(target, spec, scope):
         if not isinstance(target, type(spec)):
             raise TypeMatchError(type(target), type(spec))
         result = []
+        child_errors = scope.maps[0][CHILD_ERRORS]
         for item in target:
+            n_errors = len(child_errors)
             for child in spec:
                 try:
                     result.append(scope[glom](item, child, scope))
+                    # the alternatives this item did not fit are forgiven: it matched
+                    del child_errors[n_errors:]
                     break
                 except GlomError as e:
                     last_error = e
